@@ -11,23 +11,29 @@ ALL = ("MolGraph", "StereoMolGraph", "CondensedReactionGraph", "StereoCondensedR
 # (derivation, class) -> {"pid": property whose clause names the views carry, "tier": first tier that runs it, "bound": loop bound, "want": clause families}
 PLAN = {
     "C10": [("copy", c, "quick", 1, ("view", "wf", "fresh", "source")) for c in ALL] + [("copy_constructor", c, "quick", 1, ("view", "wf", "fresh", "source")) for c in ALL]
+           # comprehensions of MolGraph.subgraph / relabel_atoms summarised on a generic element (vf/pyvc/summarise.py): argument and graph of any size
+           + [("subgraph(any size)", c, "quick", 1, ("fresh", "source")) for c in ("MolGraph", "CondensedReactionGraph")]
+           + [("relabel_atoms(copy=True)", c, "quick", 1, ("fresh", "source")) for c in ("MolGraph", "CondensedReactionGraph")]
+           # the argument given as a one-shot iterator (bounded mode: <= 1 element)
            + [("subgraph", c, "quick", 1, ("fresh", "source")) for c in ("MolGraph", "CondensedReactionGraph")]
            + [("enantiomer", "StereoMolGraph", "quick", 1, ("fresh", "source")), ("enantiomer", "StereoCondensedReactionGraph", "quick", 1, ("fresh", "source"), 4)],
-    "C17": [("subgraph", c, "quick", 1, ("view", "wf")) for c in ("MolGraph", "CondensedReactionGraph")]
+    "C17": [("subgraph(any size)", c, "quick", 1, ("view", "wf")) for c in ("MolGraph", "CondensedReactionGraph")]
+           + [("subgraph", c, "quick", 1, ("view", "wf")) for c in ("MolGraph", "CondensedReactionGraph")]
            + [("subgraph", c, "thorough", 2, ("view", "wf")) for c in ("MolGraph",)],
     # loops of SMG.enantiomer carry side-car invariants (vf/contracts/loop_invariants.py) -> unbounded; invert() enters through its contract
     # 7th field: number of loops under invariant -> one task per loop (init + generic step) and one for the loop-free remainder
     "C06": [("enantiomer", "StereoMolGraph", "quick", 1, ("view", "wf", "fresh", "source")),
             ("enantiomer", "StereoCondensedReactionGraph", "quick", 1, ("view", "wf", "fresh", "source"), 4)],
-    "C11": [("relabel_atoms(copy=True)", "MolGraph", "thorough", 1, ("view", "wf", "source"))],
+    "C11": [("relabel_atoms(copy=True)", c, "quick", 1, ("view", "wf", "source")) for c in ("MolGraph", "CondensedReactionGraph")],
 }
 
 
 def ob_derivation(rep, world, dname, cname, pid, bound, want, timeout, focus=None):
-    from ..contracts.loop_invariants import LOOPS
+    from ..contracts.loop_invariants import LOOPS, SUMMARISE
 
+    # the bounded variant of subgraph (one-shot iterator argument) keeps the unrolling; everything else uses the summarised comprehensions
     verify.verify_derivation(rep.obs, world, cname, dname, D.DERIVATIONS[dname](), pid, timeout=timeout, iter_bound=bound, want=want, loop_contracts=LOOPS,
-                             callee_contracts=verify.DESCR_CONTRACTS, focus_loop=focus)
+                             callee_contracts=verify.DESCR_CONTRACTS, focus_loop=focus, summarise=None if dname == "subgraph" else SUMMARISE)
     # keep the clauses that belong to this property (freshness clauses are named C10/...)
     rep.obs[:] = [o for o in rep.obs if o.name.startswith(pid + "/") or o.name.startswith("E1/")]
 
@@ -56,7 +62,7 @@ def tasks(pid, tier, timeout):
 
 def functions(world, pid):
     seen, out = set(), []
-    names = {"copy": "copy", "copy_constructor": "__init__", "subgraph": "subgraph", "enantiomer": "enantiomer", "relabel_atoms(copy=True)": "relabel_atoms"}
+    names = {"copy": "copy", "copy_constructor": "__init__", "subgraph": "subgraph", "subgraph(any size)": "subgraph", "enantiomer": "enantiomer", "relabel_atoms(copy=True)": "relabel_atoms"}
     if pid == "C06":
         out.append(src_info("stereodescriptors.py", "_StereoMixin.invert"))
     for dname, cname, *_ in PLAN.get(pid, []):
